@@ -95,6 +95,7 @@ type Ctx struct {
 	Violations  []Violation
 	Known       map[string]int
 	Notes       []string
+	Exhaustive  bool
 
 	ops          []ModelOp
 	ModelOpsRun  int
@@ -246,6 +247,7 @@ type Result struct {
 	Mismatches   int            `json:"mismatches"`
 	Notes        []string       `json:"notes"`
 	Rule         string         `json:"rule"`
+	Exhaustive   bool           `json:"exhaustive"`
 	WallS        float64        `json:"wall_s"`
 }
 
@@ -257,7 +259,7 @@ func (c *Ctx) Finish(rule string, outPath string) {
 	}
 	sort.Strings(keys)
 	r := Result{c.Prop, c.Seed, c.Tier, c.Evaluations, len(c.distinct), c.Dist, c.Samples, c.Violations,
-		c.Known, c.ModelOpsRun, c.Mismatches, c.Notes, rule, time.Since(c.Start).Seconds()}
+		c.Known, c.ModelOpsRun, c.Mismatches, c.Notes, rule, c.Exhaustive, time.Since(c.Start).Seconds()}
 	if r.Violations == nil {
 		r.Violations = []Violation{}
 	}
